@@ -440,6 +440,38 @@ Definition spec_ok (i : input) (o : obs) : bool :=
   && match o_outside o with [] => true | _ => false end
   && o_temps_ok o.
 
+(* ---------- vocabulary of the theorems (C15_Property.v) ---------- *)
+Fixpoint all_chars (p : ascii -> bool) (s : string) : bool :=
+  match s with
+  | EmptyString => true
+  | String a s' => p a && all_chars p s'
+  end.
+
+(* no two urls of the history collide under the hash *)
+Definition inj_on (sha : string -> string) (us : list string) : Prop :=
+  forall u v, In u us -> In v us -> sha u = sha v -> u = v.
+
+(* the decoder gives back what the encoder was given, on every Set of the history *)
+Definition rt_op (enc : string -> option string -> string)
+           (dec : string -> option (string * option string)) (o : op) : Prop :=
+  match o with
+  | OSet _ (Some (Some b, d)) => dec (enc b d) = Some (b, norm d)
+  | _ => True
+  end.
+Definition roundtrip_on enc dec (ops : list op) : Prop := Forall (rt_op enc dec) ops.
+
+(* results of a history on the cache / on the map, from the empty directory / map *)
+Definition impl_results sha enc dec parse (ops : list op) : list res :=
+  fst (fst (run_ops sha enc dec parse [] ops)).
+Definition impl_writes sha enc dec parse (ops : list op) : list string :=
+  snd (fst (run_ops sha enc dec parse [] ops)).
+Definition impl_files sha enc dec parse (ops : list op) : fs :=
+  snd (run_ops sha enc dec parse [] ops).
+Definition map_results dec parse (ops : list op) : list res := fst (spec_run dec parse sempty ops).
+Definition map_after dec parse (ops : list op) : sstate := snd (spec_run dec parse sempty ops).
+
+Definition on_url (u : string) (o : op) : bool := String.eqb (op_url o) u.
+
 (* ---------- boolean equalities ---------- *)
 Definition res_eqb (a b : res) : bool :=
   match a, b with
